@@ -340,4 +340,76 @@ def replaySends (T : Topo) (self : Ep) (ro : RecObj) (target : Ep) : Bool :=
   | .deleted => false
   | .present oz => canAccess T (T.zoneOf target) (targetZone T self oz)
 
+/-! ### Log positions: which endpoints a later replay may hand the event to
+
+    `Endpoint::local_log_position` of endpoint `e` on a node is "how far `e` has confirmed our replay log".  Two sites write it:
+    `SetLogPositionHandler` (the position `e` reports every 5 s, `ApiListener::ApiTimerHandler`) and the last block of
+    `RelayMessageOne`: an endpoint that is connected and deliberately NOT given the event (it gets it on another path: from the
+    zone master, through the endpoint its zone was entered by, or it is where the event came from) has its position advanced to
+    the event's `ts`, so that a later `ReplayLog` does not hand it the event a second time.  Times are integers (the harness'
+    virtual clock), `0` = never. -/
+
+/-- `SetLogPositionHandler` (jsonrpcconnection.cpp:374-388): a reported position only ever moves the stored one forward. -/
+def reportPos (lpos p : Int) : Int := if p > lpos then p else lpos
+
+/-- the last block of `RelayMessageOne` (apilistener.cpp:1318-1323) for endpoint `e` -/
+def skipPos (r : Result) (ts : Int) (e : Ep) (lpos : Int) : Int := if r.skipped.contains e then ts else lpos
+
+/-- `ApiListener::ReplayLog` (apilistener.cpp:1529-1549) for the one record of the event: it is in the log iff it was persisted
+    (`PersistMessage` stores `timestamp = ts`, :1141-1145), it is skipped when `timestamp <= peer_ts` (:1535) and when the
+    connecting endpoint's zone may not access the object (:1538-1547); a record that was sent moves `peer_ts` to its timestamp
+    (:1562), so the second pass of the loop does not send it again. -/
+def replayCopies (T : Topo) (self : Ep) (persisted : Bool) (ts lpos : Int) (ro : RecObj) (target : Ep) : Nat :=
+  if persisted && decide (lpos < ts) && replaySends T self ro target then 1 else 0
+
+/-- one scenario: `target` reports the positions `pre`, the node relays an event at time `ts`, `target` reports the positions
+    `post`, its connection drops, it connects again and the node replays its log for it -/
+structure LogRun where
+  result : Result
+  /-- `target`'s `local_log_position` when the replay starts -/
+  lpos : Int
+  /-- copies of the event the replay hands to `target` -/
+  copies : Nat
+  deriving Repr, DecidableEq, Inhabited
+
+def logRun (T : Topo) (self : Ep) (o : Origin) (objZone : Option Zone) (log : Bool) (target : Ep) (pre post : List Int) (ts : Int)
+    (ro : RecObj) : LogRun :=
+  let r := relay T self o objZone log
+  let l := post.foldl reportPos (skipPos r ts target (pre.foldl reportPos 0))
+  ⟨r, l, replayCopies T self r.persist ts l ro target⟩
+
+/-! ### Two members of one zone, one event, one endpoint that reconnects to both -/
+
+/-- what `target` tells the node before it reconnects: an endpoint that received the event confirms it (its periodic
+    `log::SetLogPosition` carries the `ts` of the last message it got, apilistener.cpp `ApiTimerHandler`) -/
+def confirm (T : Topo) (self : Ep) (r : Result) (target : Ep) (ts : Int) : List Int :=
+  if (queued T self r).contains target then [ts] else []
+
+structure PairRun where
+  a : LogRun
+  /-- `none`: the event never reached the second node -/
+  b : Option LogRun
+  deriving Repr, DecidableEq, Inhabited
+
+/-- node `a` relays a local event about an object of zone `oz`; if it hands it to its zone peer `b`, `b` builds the origin,
+    accepts or discards, and relays again (one `deliver` step); on both nodes `target` then confirms what it got, reconnects
+    and the log is replayed for it -/
+def pairRun (T : Topo) (a b : Ep) (oz : Zone) (target : Ep) (ts : Int) : PairRun :=
+  let ra := relay T a Origin.loc (some oz) true
+  let la := logRun T a Origin.loc (some oz) true target [] (confirm T a ra target ts) ts (.present (some oz))
+  let ob := originOf T ⟨b, a, none⟩
+  if (queued T a ra).contains b && accept T oz ob then
+    ⟨la, some (logRun T b ob (some oz) true target [] (confirm T b (relay T b ob (some oz) true) target ts) ts (.present (some oz)))⟩
+  else ⟨la, none⟩
+
+/-! ### `SyncSendMessage`: which connections of an endpoint get the message (apilistener.cpp:1176-1203) -/
+
+/-- `maxTs` (apilistener.cpp:1183-1188): the largest creation timestamp among the endpoint's connections, starting from 0 -/
+def maxStamp (stamps : List Nat) : Nat := stamps.foldl max 0
+
+/-- the connections (identified by their creation timestamps, in the order of `GetClients()`) the message is queued on: none
+    while the endpoint is `syncing` (:1180), else every connection whose timestamp EQUALS the maximum (:1190-1193) -/
+def syncSend (syncing : Bool) (stamps : List Nat) : List Nat :=
+  if syncing then [] else stamps.filter (fun t => t == maxStamp stamps)
+
 end Icinga.C11
